@@ -109,3 +109,18 @@ package db
 //@        len(callres(GetChanges, 1, 0)) < paginationOptions.Limit
 //@   before[only-if-not-visible] call makeRevocationChangeEntry#1 !callres(UserHasDocAccess, 1, 0) && isNilErr(callres(UserHasDocAccess, 1, 1))
 //@   before[only-if-was-visible] call makeRevocationChangeEntry#1 $1.Sequence <= sinceVal || callres(wasDocInChannelPriorToRevocation, 1, 0)
+// resumable ("paging with a limit and resuming from any position the server handed out"): the row is stamped
+// SequenceID{Seq: document sequence, TriggeredBy: revocation sequence} and the client resumes from the token String()
+// prints for it, which parses back to normTok (lemma roundtrip, C20). The resumed pull must still report the revoked
+// channel, i.e. pass the test of RevokedCollectionChannels for the history entry that ends at the revocation sequence:
+// EndSeq > checkSeq || EndSeq == triggeredBy, with (since, lowSeq, triggeredBy) taken from the resumed token.
+// FAILS on the real code (finding, /verif/findings/C13_paged_revocation_resume_test.go): String() keeps TriggeredBy only
+// when Seq < TriggeredBy, so a revoked document that was updated AFTER the revocation (Seq > TriggeredBy) goes out as
+// the plain "Seq"; the next pull has since >= the revocation sequence and the channel is not revoked any more.
+//@   before[resumable] call makeRevocationChangeEntry#1 $2.TriggeredBy > ckSeq(normTok($2).Seq, normTok($2).LowSeq, normTok($2).TriggeredBy) || normTok($2).TriggeredBy == $2.TriggeredBy
+
+// The clause `resumable` is exactly what the compound token form provides: when the document sequence is below the
+// revocation sequence, String() emits "TriggeredBy:Seq" and the resumed pull hits the `EndSeq == triggeredBy` case.
+//@ lemma c13_resumable_when_compound(s SequenceID)
+//@   requires s.TriggeredBy > 0 && s.Seq < s.TriggeredBy
+//@   ensures[resumes] s.TriggeredBy > ckSeq(normTok(s).Seq, normTok(s).LowSeq, normTok(s).TriggeredBy) || normTok(s).TriggeredBy == s.TriggeredBy
